@@ -55,6 +55,10 @@ Section Step.
   Proof. apply step_same; reflexivity. Qed.
   Lemma step_set_abort s : step s (set_abort s).
   Proof. apply step_same; reflexivity. Qed.
+  Lemma step_set_known s k : step s (set_known s k).
+  Proof. apply step_same; reflexivity. Qed.
+  Lemma step_wait_reset c ids s : step s (wait_reset sc c ids s).
+  Proof. unfold wait_reset. destruct (existsb _ ids); [apply step_set_known|apply step_refl]. Qed.
   Lemma step_maybe_cancel s i : step s (maybe_cancel sc s i).
   Proof.
     unfold maybe_cancel. destruct (e_cancel (sc_env sc)); try apply step_refl.
@@ -154,15 +158,16 @@ Section Step.
     unfold wait_task.
     pose proof (step_wait_start c g ids s) as S1.
     destruct (wait_start c g ids s) as [s1 w1]. cbn [fst] in S1.
-    destruct (w_pending w1); [exact S1|].
+    destruct (w_pending w1); [eapply step_trans; [exact S1|apply step_wait_reset]|].
     destruct (match e_watch_err_at (sc_env sc) with Some n => Nat.eqb n (snd g) | None => false end);
       [eapply step_trans; [exact S1|apply step_set_abort]|].
     pose proof (step_deliver c g ids (w_deliv (nth (snd g) (e_waits (sc_env sc)) (mkW [] WTimeout))) s1 w1) as S2.
     destruct (deliver sc c g ids _ s1 w1) as [s2 w2]. cbn [fst] in S2.
     eapply step_trans; [exact S1|]. eapply step_trans; [exact S2|].
-    destruct (w_pending w2); [apply step_refl|].
+    destruct (w_pending w2); [apply step_wait_reset|].
     destruct (w_end _).
-    - destruct (match c with AllCurrent => _ | AllNotFound => _ end); [apply step_wait_timeout|apply step_set_abort].
+    - destruct (match c with AllCurrent => _ | AllNotFound => _ end); [|apply step_set_abort].
+      eapply step_trans; [apply step_wait_timeout|apply step_wait_reset].
     - apply step_set_abort.
   Qed.
 
@@ -170,6 +175,7 @@ Section Step.
   Lemma step_fetch_all ids : forall s, step s (fst (fetch_all sc s ids)).
   Proof.
     induction ids as [|i t IH]; intros s; cbn [fetch_all]; [apply step_refl|].
+    destruct (negb (kind_known sc (r_known s) i)); [apply IH|].
     pose proof (step_get_obj s i) as G. destruct (get_obj sc s i) as [s1 g]. cbn [fst] in G.
     destruct g; cbn [fst].
     - exact G.
@@ -200,13 +206,41 @@ Section Step.
   Qed.
 End Step.
 
+(* the mapper reset at the end of a wait task touches nothing but r_known *)
+Section WaitReset.
+  Variable sc : scenario.
+  Lemma wait_reset_cases c ids s :
+    wait_reset sc c ids s = s \/ wait_reset sc c ids s = set_known s (live_crds sc (r_cl s)).
+  Proof. unfold wait_reset. destruct (existsb _ ids); auto. Qed.
+  Lemma wait_reset_cl c ids s : r_cl (wait_reset sc c ids s) = r_cl s.
+  Proof. destruct (wait_reset_cases c ids s) as [-> | ->]; reflexivity. Qed.
+  Lemma wait_reset_tbl c ids s : r_tbl (wait_reset sc c ids s) = r_tbl s.
+  Proof. destruct (wait_reset_cases c ids s) as [-> | ->]; reflexivity. Qed.
+  Lemma wait_reset_cache c ids s : r_cache (wait_reset sc c ids s) = r_cache s.
+  Proof. destruct (wait_reset_cases c ids s) as [-> | ->]; reflexivity. Qed.
+  Lemma wait_reset_aband c ids s : r_aband (wait_reset sc c ids s) = r_aband s.
+  Proof. destruct (wait_reset_cases c ids s) as [-> | ->]; reflexivity. Qed.
+  Lemma wait_reset_tr c ids s : r_tr (wait_reset sc c ids s) = r_tr s.
+  Proof. destruct (wait_reset_cases c ids s) as [-> | ->]; reflexivity. Qed.
+  Lemma wait_reset_abort c ids s : r_abort (wait_reset sc c ids s) = r_abort s.
+  Proof. destruct (wait_reset_cases c ids s) as [-> | ->]; reflexivity. Qed.
+  Lemma wait_reset_gets c ids s : r_gets (wait_reset sc c ids s) = r_gets s.
+  Proof. destruct (wait_reset_cases c ids s) as [-> | ->]; reflexivity. Qed.
+  Lemma wait_reset_nlist c ids s : r_nlist (wait_reset sc c ids s) = r_nlist s.
+  Proof. destruct (wait_reset_cases c ids s) as [-> | ->]; reflexivity. Qed.
+  Lemma wait_reset_nget c ids s : r_nget (wait_reset sc c ids s) = r_nget s.
+  Proof. destruct (wait_reset_cases c ids s) as [-> | ->]; reflexivity. Qed.
+  Lemma wait_reset_nwrite c ids s : r_nwrite (wait_reset sc c ids s) = r_nwrite s.
+  Proof. destruct (wait_reset_cases c ids s) as [-> | ->]; reflexivity. Qed.
+End WaitReset.
+
 Section RunState.
   Variable sc : scenario.
   (* the whole run, as a statement about the final run state before `finish` *)
   Definition run_state (c0 : cluster) : rst :=
     let o := sc_opts sc in
     let locals := if o_destroy o then [] else sc_local sc in
-    let s0 := init_state c0 in
+    let s0 := init_state sc c0 in
     let '(s1, r1) := inv_list sc s0 in
     match r1 with
     | None => ev s1 EError
@@ -217,7 +251,7 @@ Section RunState.
         match r2 with
         | None => ev s2 EError
         | Some pobjs =>
-            let pl := build_plan sc locals pobjs in
+            let pl := build_plan sc (r_known s2) locals pobjs in
             let s3 := register sc pl s2 in
             let '(s4, r4) := inv_list sc s3 in
             let prev := option_map (fun st => match st with Some l => l | None => [] end) r4 in
@@ -238,7 +272,7 @@ Section RunState.
   Lemma run_is_finish c0 : run sc c0 = finish (run_state c0).
   Proof.
     unfold run, run_state. cbv zeta.
-    destruct (inv_list sc (init_state c0)) as [s1 r1]. destruct r1 as [st|]; [|reflexivity].
+    destruct (inv_list sc (init_state sc c0)) as [s1 r1]. destruct r1 as [st|]; [|reflexivity].
     destruct (fetch_all sc s1 _) as [s2 r2]. destruct r2 as [pobjs|]; [|reflexivity].
     destruct (inv_list sc (register sc _ s2)) as [s4 r4].
     destruct (o_valpol (sc_opts sc)); destruct (pl_valerrs _); try reflexivity;
